@@ -673,3 +673,5 @@ Definition taggedData_mtag1_ref (B : behaviour) (mt : mtag) (index : Z) (referen
 (** default arguments of the header: retrieval is Exclusive, getOffsetAndCount is Inclusive *)
 Definition default_match_retrieval : RangeMatch := RangeMatch_Exclusive.
 Definition default_match_offcnt : RangeMatch := RangeMatch_Inclusive.
+(** the deprecated twins util::retrieveData / util::retrieveFeatureData default to Inclusive *)
+Definition default_match_deprecated : RangeMatch := RangeMatch_Inclusive.
